@@ -1303,3 +1303,120 @@ def groups_rows_ascending(ex, result, partition_by):
         ws = [ops.to_abstract(x) for x in g[k]]
         conj += [term(a.r, "int") <= term(b.r, "int") for a, b in zip(ws, ws[1:])]
     return mk_bool(z3.And(*conj)) if conj else True
+
+
+# ----------------------------------------------------------------------------- composition (C05)
+
+
+def _frac_of(ex, m, key):
+    """fraction of component `key` in composition dict m (0 if absent) as a z3 real term"""
+    t = z3.RealVal(0)
+    for k, f in m.items:
+        e = zbool(unwrap_bool(ops.equals(ex, k, key)))
+        t = z3.If(e, term(f, "real"), t)
+    return t
+
+
+@spec
+def mixing_ok(ex, result, vA, cA, vB, cB):
+    """result has exactly the components of A and B, each with the volume-weighted mean fraction"""
+    keys = [k for k, _ in cA.items] + [k for k, _ in cB.items]
+    tot = term(vA, "real") + term(vB, "real")
+    conj = []
+    for key in keys:
+        want = (term(vA, "real") * _frac_of(ex, cA, key) + term(vB, "real") * _frac_of(ex, cB, key)) / tot
+        present = z3.Or(*[zbool(unwrap_bool(ops.equals(ex, k, key))) for k, _ in result.items]) if result.items else z3.BoolVal(False)
+        conj.append(z3.And(present, _frac_of(ex, result, key) == want))
+    for k, _ in result.items:  # nothing else
+        conj.append(z3.Or(*[zbool(unwrap_bool(ops.equals(ex, k, key))) for key in keys]) if keys else z3.BoolVal(False))
+    # result keys are pairwise distinct (it is a dict)
+    return mk_bool(z3.And(*conj)) if conj else True
+
+
+@spec
+def comp_sum(ex, m):
+    if m is None:
+        return 0
+    t = z3.RealVal(0)
+    for _, f in m.items:
+        t = t + term(f, "real")
+    return mk_num(t, "real")
+
+
+@spec
+def comp_all(ex, m, pred):
+    r = True
+    for _, f in m.items:
+        r = ops.and_(ex, r, ex.truth(_call(ex, pred, f)) if not isinstance(ex.truth(_call(ex, pred, f)), bool) else ex.truth(_call(ex, pred, f)))
+    return r
+
+
+def _lw_frac(ex, L, key, r, c):
+    """fraction of component `key` at real well (r, c) of labware L (0 if L has no such component)"""
+    t = z3.RealVal(0)
+    for k, arr in L.fields["_composition"].items:
+        e = zbool(unwrap_bool(ops.equals(ex, k, key)))
+        t = z3.If(e, term(arr.fn(r, c), "real"), t)
+    return t
+
+
+@spec
+def composition_after_add_ok(ex, L, old, well, volume, comp):
+    """at the addressed real well every component of (old composition + incoming liquid) has the ideal mixture fraction
+    (v_old*f_old + v*f_in)/(v_old + v); fractions add up to 1; nothing changes when the well stays empty"""
+    idx = _real_index(ex, old, well).concrete_items()
+    r, c = _plain(idx[0]), _plain(idx[1])
+    v_old = term(old.fields["_volumes"].fn(r, c), "real")
+    v = term(volume, "real")
+    keys = [k for k, _ in old.fields["_composition"].items] + [k for k, _ in comp.items]
+    conj = []
+    total = z3.RealVal(0)
+    for key in keys:
+        want = (v_old * _lw_frac(ex, old, key, r, c) + v * _frac_of(ex, comp, key)) / (v_old + v)
+        conj.append(z3.If(v_old + v > 0, _lw_frac(ex, L, key, r, c) == want, _lw_frac(ex, L, key, r, c) == _lw_frac(ex, old, key, r, c)))
+    seen = []
+    for k, arr in L.fields["_composition"].items:
+        total = total + term(arr.fn(r, c), "real")
+    conj.append(z3.Implies(z3.And(v_old + v > 0, z3.Or(v_old == 0, _sum_old(ex, old, r, c) == 1)), total == 1))
+    return mk_bool(z3.And(*conj))
+
+
+def _sum_old(ex, old, r, c):
+    t = z3.RealVal(0)
+    for _, arr in old.fields["_composition"].items:
+        t = t + term(arr.fn(r, c), "real")
+    return t
+
+
+@spec
+def composition_frame_ok(ex, L, old, well):
+    """no fraction of any other real well changed (and no component appeared there); with well=None: nothing changed at all"""
+    i, j = z3.Int(ex.p.fresh_name("cr")), z3.Int(ex.p.fresh_name("cc"))
+    vols = old.fields["_volumes"]
+    rng = z3.And(i >= 0, i < term(vols.rows, "int"), j >= 0, j < term(vols.cols, "int"))
+    if well is not None:
+        idx = _real_index(ex, old, well).concrete_items()
+        rng = z3.And(rng, z3.Not(z3.And(i == term(idx[0], "int"), j == term(idx[1], "int"))))
+    keys = [k for k, _ in L.fields["_composition"].items] + [k for k, _ in old.fields["_composition"].items]
+    conj = [_lw_frac(ex, L, key, i, j) == _lw_frac(ex, old, key, i, j) for key in keys]
+    return mk_bool(z3.ForAll([i, j], z3.Implies(rng, z3.And(*conj))))
+
+
+@spec
+def well_composition_ok(ex, result, L, well):
+    """None for unknown composition; otherwise exactly the components with a positive fraction at the well, with that fraction"""
+    if L.fields["_composition"] is None:
+        return result is None
+    if result is None:
+        return False
+    idx = _real_index(ex, L, well).concrete_items()
+    r, c = _plain(idx[0]), _plain(idx[1])
+    conj = []
+    for k, arr in L.fields["_composition"].items:
+        f = term(arr.fn(r, c), "real")
+        present = z3.Or(*[zbool(unwrap_bool(ops.equals(ex, k2, k))) for k2, _ in result.items]) if result.items else z3.BoolVal(False)
+        conj.append(present == (f > 0))
+        conj.append(z3.Implies(f > 0, _frac_of(ex, result, k) == f))
+    for k2, _ in result.items:
+        conj.append(z3.Or(*[zbool(unwrap_bool(ops.equals(ex, k2, k))) for k, _ in L.fields["_composition"].items]))
+    return mk_bool(z3.And(*conj))
